@@ -1,6 +1,7 @@
 package main
 
 import (
+	"go/ast"
 	"go/parser"
 	"go/token"
 	"path"
@@ -35,6 +36,14 @@ import (
 //	     extends another, the nodes of the LAYOUT are checked with tc.path = layout but scopes.path =
 //	     extending file. culprit test: message is one of the scopes' messages; the path is the built
 //	     file, which extends; the position is that of the label's name in a file of its extends chain.
+//	limit-error-location  the limit-exceeded errors of the emitter take their path from the function builder, which for
+//	     the functions of a PROGRAM is the package name (`main:2:1: int registers count exceeded 127` for an excess in
+//	     func main of main.go), and the synthetic function that initialises the package-level variables ($initvars,
+//	     emitter.go emitPackage) has an empty position: `main:0:0`, and `p/p.go:0:0` for an imported package.
+//	     culprit test: message `<kind> count exceeded <n>`; and either the path is no file of the case but the name
+//	     of a package of the program (read with go/parser) and the position is 0:0 with initialised package-level
+//	     variables in that package, or that of a function declaration/literal of that package; or the path is a file
+//	     of the case, the position is 0:0 and its package declares initialised package-level variables.
 type findingClass struct {
 	id      string
 	explain func(b lexh.BuildCase, r lexh.BuildResult, clause string) bool
@@ -56,7 +65,71 @@ func posIn(data []byte, r lexh.BuildResult) bool {
 	return l == r.Line && (!utf8.Valid(data) || c == r.Col)
 }
 
+var limitMsgRe = regexp.MustCompile(`^[a-z ]+ count exceeded \d+$`)
+
+// packageHasVars reports whether a Go file of the case belongs to the package named pkg
+// and declares a package-level variable (read with go/parser).
+func packageHasVars(b lexh.BuildCase, pkg string) bool {
+	for n, d := range b.Files {
+		if !strings.HasSuffix(n, ".go") {
+			continue
+		}
+		f, _ := parser.ParseFile(token.NewFileSet(), n, d, parser.SkipObjectResolution)
+		if f == nil || f.Name == nil || f.Name.Name != pkg {
+			continue
+		}
+		for _, dd := range f.Decls {
+			if gd, ok := dd.(*ast.GenDecl); ok && gd.Tok == token.VAR {
+				for _, sp := range gd.Specs {
+					if _, ok := sp.(*ast.ValueSpec); ok {
+						return true
+					}
+				}
+			}
+		}
+	}
+	return false
+}
+
 var findingClasses = []findingClass{
+	{"limit-error-location", func(b lexh.BuildCase, r lexh.BuildResult, clause string) bool {
+		if !limitMsgRe.MatchString(r.Msg) {
+			return false
+		}
+		zero := r.Line == 0 && r.Col == 0 && r.Start == 0
+		if d, isFile := fileOf(b, r.Path); isFile {
+			// an imported package's initialiser function: the file is right, the position is empty
+			f, _ := parser.ParseFile(token.NewFileSet(), r.Path, d, parser.PackageClauseOnly)
+			return zero && f != nil && f.Name != nil && packageHasVars(b, f.Name.Name)
+		}
+		if zero {
+			return packageHasVars(b, r.Path)
+		}
+		// the position is that of a function of the package whose name is given as path
+		for n, d := range b.Files {
+			if !strings.HasSuffix(n, ".go") || !posIn(d, r) {
+				continue
+			}
+			f, _ := parser.ParseFile(token.NewFileSet(), n, d, parser.SkipObjectResolution)
+			if f == nil || f.Name == nil || f.Name.Name != r.Path {
+				continue
+			}
+			found := false
+			ast.Inspect(f, func(x ast.Node) bool {
+				switch fn := x.(type) {
+				case *ast.FuncDecl:
+					found = found || int(fn.Pos())-1 == r.Start
+				case *ast.FuncLit:
+					found = found || int(fn.Pos())-1 == r.Start
+				}
+				return !found
+			})
+			if found {
+				return true
+			}
+		}
+		return false
+	}},
 	{"using-error-in-other-file", func(b lexh.BuildCase, r lexh.BuildResult, clause string) bool {
 		if b.Program() || r.Msg != "predeclared identifier itea not used" || clause == "path-is-a-file-the-build-read" {
 			return false
@@ -205,6 +278,26 @@ func classProbes() []classProbe {
 			b.Files[files[i]] = []byte(files[i+1])
 		}
 		out = append(out, classProbe{class, b, predicted})
+	}
+	// limit-error-location: n package-level variables of one register kind around the limit of 127,
+	// in package main and in an imported package of a module; controls: under the limit, the same excess inside
+	// func main (reported with a file and a position), variables without initialisers
+	{
+		vars := func(n int, f string) string {
+			var sb strings.Builder
+			for i := 0; i < n; i++ {
+				sb.WriteString(strings.ReplaceAll(f, "#", strconv.Itoa(i)))
+			}
+			return sb.String()
+		}
+		for _, f := range []string{"var v# = \"s#\"\n", "var v# = #\n", "var v# = #.5\n", "var v# = []int{#}\n"} {
+			p("limit-error-location", true, "main.go", "package main\n"+vars(128, f)+"func main() {}\n")
+			p("limit-error-location", true, "main.go", "package main\n"+vars(200, f)+"func main() {}\n")
+			p("limit-error-location", false, "main.go", "package main\n"+vars(100, f)+"func main() {}\n")
+			p("limit-error-location", true, "main.go", "package main\nfunc main() {\n"+vars(200, strings.Replace(f, "\n", "; _ = v#\n", 1))+"}\n")
+		}
+		p("limit-error-location", true, "main.go", "package main\n"+vars(200, "var v# string\n")+"func main() {}\n")
+		p("limit-error-location", true, "go.mod", "module m\n", "main.go", "package main\nimport _ \"m/a\"\nfunc main() {}\n", "a/a.go", "package a\n"+vars(128, "var v# = \"s#\"\n"))
 	}
 	// using-error-in-other-file: a using statement (itea used or not) x a render before it, in its body, after it;
 	// the using statement in the built file or in a rendered file that renders a third file; padding so
